@@ -652,7 +652,7 @@ Proof.
   - cbn [ins_cs] in E. rewrite elems_cs_nil in *. destruct (IHlast k S) as [E1 E2].
     destruct (ins m last k) as [t' f' | l s r]; inversion E; subst; clear E.
     + cbn in E1, E2. rewrite elems_cs_nil. repeat split; try tauto; discriminate.
-    + cbn in E1, E2. Show. rewrite elems_cs_cons, elems_cs_nil. tauto.
+    + cbn in E1, E2. rewrite elems_cs_cons. unfold elems_cs. cbn [flat_map app]. tauto.
   - inversion IHcs as [| ? ? Hc Hcs]; subst. cbn [fst] in Hc.
     rewrite elems_cs_cons in *. cbn [ins_cs] in E.
     destruct (sorted_mid _ _ _ S) as (SA & SB & CA & CB).
@@ -678,7 +678,7 @@ Proof.
       { split; [| intros; apply in_or_app; left; assumption].
         intros Hin. apply in_app_or in Hin. destruct Hin as [Hin | [-> | Hin]]; [exact Hin | lia | specialize (CB _ Hin); lia]. }
       rewrite (sinsert_below k _ s _ Lk CA), InA, <- E1.
-      destruct (ins m c k) as [c' f' | l s' r]; inversion E; subst; clear E; cbn in E2 |- *.
+      destruct (ins m c k) as [c' f' | l s' r]; inversion E; subst; clear E; cbn [ins_elems ins_fresh] in E2 |- *.
       * rewrite elems_cs_cons. repeat split; try tauto; discriminate.
       * rewrite !elems_cs_cons, <- app_assoc. cbn. tauto.
 Qed.
@@ -692,5 +692,673 @@ Proof.
     destruct (ins_cs_spec m k last cs IHcs IHlast S _ _ _ _ _ E) as (I1 & I2 & I3).
     destruct g1.
     + rewrite mk_inner_elems, mk_inner_fresh. split; [exact I1 |]. rewrite <- I2. split; auto.
-    + cbn. rewrite elements_Inner. tauto.
+    + cbn [ins_elems ins_fresh]. rewrite elements_Inner. tauto.
 Qed.
+
+(** ** shape (uniform depth, fill bounds) is preserved *)
+Lemma forallb_fst (f : tree -> bool) (cs : list (tree * Z)) :
+  forallb (fun p : tree * Z => let (c, _) := p in f c) cs = true <-> Forall (fun p => f (fst p) = true) cs.
+Proof.
+  induction cs as [| [c s] cs IH]; cbn.
+  - split; [constructor | reflexivity].
+  - rewrite andb_true_iff, IH. split.
+    + intros [H1 H2]. constructor; assumption.
+    + intros H. inversion H; subst. split; assumption.
+Qed.
+
+Lemma split_point_facts m : (3 <= m)%nat ->
+  (min_keys m <= split_point m /\ min_keys m <= m - split_point m - 1 /\ split_point m + 2 <= m /\ 1 <= min_keys m)%nat.
+Proof.
+  intros Hm. unfold min_keys, split_point.
+  pose proof (Nat.div_mod (3 * m) 4 ltac:(lia)) as D.
+  pose proof (Nat.mod_upper_bound (3 * m) 4 ltac:(lia)) as U.
+  lia.
+Qed.
+
+Section Shape.
+  Variables m mn : nat.
+  Hypothesis Hsp1 : (mn <= split_point m)%nat.
+  Hypothesis Hsp2 : (mn <= m - split_point m - 1)%nat.
+  Hypothesis Hsp3 : (split_point m + 2 <= m)%nat.
+
+  Definition good (d : nat) (c : tree) : Prop := depth_ok d c = true /\ fill mn mn m c = true.
+
+  Lemma shape_Inner d top cs last :
+    (depth_ok (S d) (Inner cs last) = true /\ fill top mn m (Inner cs last) = true) <->
+    ((top <= length cs <= m)%nat /\ Forall (fun p => good d (fst p)) cs /\ good d last).
+  Proof.
+    cbn [depth_ok fill]. rewrite !andb_true_iff, !forallb_fst. unfold good.
+    rewrite !Nat.leb_le. split.
+    - intros ((F1 & L1) & ((T1 & T2) & F2) & L2). repeat split; try assumption.
+      rewrite Forall_forall in *. intros p Hp. split; [apply F1, Hp | apply F2, Hp].
+    - intros ((T1 & T2) & F & L1 & L2). rewrite Forall_forall in F.
+      repeat split; try assumption; rewrite Forall_forall; intros p Hp; apply (F p Hp).
+  Qed.
+
+  Lemma cut_point_range idx : (split_point m <= cut_point m idx <= split_point m + 1)%nat.
+  Proof. unfold cut_point. destruct (Nat.leb idx (split_point m)); lia. Qed.
+
+  Definition shape_res (d top : nat) (r : ins_result) : Prop :=
+    match r with
+    | Done t' _ => depth_ok d t' = true /\ fill top mn m t' = true
+    | Split l _ r => good d l /\ good d r
+    end.
+
+  Definition shape_ok (t : tree) : Prop :=
+    forall d top k, depth_ok d t = true -> fill top mn m t = true -> shape_res d top (ins m t k).
+
+  Lemma ins_leaf_shape ks : shape_ok (Leaf ks).
+  Proof.
+    intros d top k D F. cbn [ins]. cbn [depth_ok fill] in D, F.
+    apply andb_true_iff in F. destruct F as [F1 F2]. apply Nat.leb_le in F1, F2.
+    unfold ins_leaf. destruct (match leaf_pos k ks with O => false | S j => nth j ks 0 =? k end).
+    - cbn. split; [exact D |]. apply andb_true_iff. split; apply Nat.leb_le; assumption.
+    - pose proof (insert_at_length (leaf_pos k ks) k ks) as L.
+      set (ks' := insert_at (leaf_pos k ks) k ks) in *.
+      destruct (Nat.leb (length ks') m) eqn:Le.
+      + apply Nat.leb_le in Le. cbn. split; [exact D |].
+        apply andb_true_iff. split; apply Nat.leb_le; lia.
+      + apply Nat.leb_gt in Le.
+        pose proof (cut_point_range (leaf_pos k ks)) as C.
+        set (c := cut_point m (leaf_pos k ks)) in *.
+        pose proof (skipn_length c ks') as SL. pose proof (firstn_length c ks') as FL.
+        destruct (skipn c ks') as [| sep r] eqn:Sk; cbn [length] in SL; [lia |].
+        cbn [shape_res]. unfold good. cbn [depth_ok fill]. rewrite D.
+        repeat split; apply andb_true_iff; split; apply Nat.leb_le; lia.
+  Qed.
+
+  Lemma ins_cs_shape d k last cs :
+    Forall (fun p => shape_ok (fst p)) cs -> shape_ok last ->
+    Forall (fun p => good d (fst p)) cs -> good d last ->
+    forall cs' last' f g p, ins_cs m k last cs = (cs', last', f, g, p) ->
+      Forall (fun p => good d (fst p)) cs' /\ good d last' /\
+      length cs' = (length cs + if g then 1 else 0)%nat.
+  Proof.
+    intros IHcs IHlast. induction cs as [| [c s] cs IH]; intros G Gl cs' last' f g p E.
+    - cbn [ins_cs] in E. destruct Gl as [G1 G2]. specialize (IHlast d mn k G1 G2).
+      destruct (ins m last k) as [t' f' | l s r]; inversion E; subst; clear E; cbn [shape_res] in IHlast.
+      + repeat split; [constructor | apply IHlast | apply IHlast].
+      + destruct IHlast as [Hl Hr]. repeat split; [constructor; [exact Hl | constructor] | apply Hr | apply Hr].
+    - inversion IHcs as [| ? ? Hc Hcs]; subst. cbn [fst] in Hc.
+      inversion G as [| ? ? Gc Gcs]; subst. cbn [fst] in Gc.
+      cbn [ins_cs] in E. destruct (s <? k); [| destruct (s =? k)].
+      + destruct (ins_cs m k last cs) as [[[[cs1 last1] f1] g1] p1] eqn:E1.
+        inversion E; subst; clear E.
+        destruct (IH Hcs Gcs Gl _ _ _ _ _ eq_refl) as (I1 & I2 & I3).
+        repeat split; [constructor; assumption | apply I2 | apply I2 | cbn [length]; lia].
+      + inversion E; subst; clear E. repeat split; [exact G | apply Gl | apply Gl | lia].
+      + destruct Gc as [G1 G2]. specialize (Hc d mn k G1 G2).
+        destruct (ins m c k) as [c' f' | l s' r]; inversion E; subst; clear E; cbn [shape_res] in Hc.
+        * repeat split; [constructor; [exact Hc | exact Gcs] | apply Gl | apply Gl | cbn [length]; lia].
+        * destruct Hc as [Hl Hr].
+          repeat split; [constructor; [exact Hl | constructor; [exact Hr | exact Gcs]] | apply Gl | apply Gl | cbn [length]; lia].
+  Qed.
+
+  Lemma mk_inner_shape d top cs last pos :
+    Forall (fun p => good d (fst p)) cs -> good d last -> (top <= length cs <= m + 1)%nat ->
+    shape_res (S d) top (mk_inner m cs last pos).
+  Proof.
+    intros G Gl L. unfold mk_inner. destruct (Nat.leb (length cs) m) eqn:Le.
+    - apply Nat.leb_le in Le. cbn [shape_res]. apply shape_Inner. split; [lia | split; assumption].
+    - apply Nat.leb_gt in Le.
+      pose proof (cut_point_range pos) as C. set (c := cut_point m pos) in *.
+      pose proof (skipn_length c cs) as SL. pose proof (firstn_length c cs) as FL.
+      destruct (skipn c cs) as [| [cm sep] rr] eqn:Sk; cbn [length] in SL; [lia |].
+      pose proof (firstn_skipn_cons _ _ _ _ Sk) as Ecs. rewrite Ecs in G.
+      apply Forall_app in G. destruct G as [Gpre Grest].
+      inversion Grest as [| ? ? Gcm Grr]; subst. cbn [fst] in Gcm.
+      cbn [shape_res]. split; apply shape_Inner; (split; [lia | split; assumption]).
+  Qed.
+
+  Lemma ins_shape t : shape_ok t.
+  Proof.
+    induction t as [ks | cs last IHcs IHlast] using tree_ind'.
+    - apply ins_leaf_shape.
+    - intros d top k D F. destruct d as [| d]; [discriminate D |].
+      destruct (proj1 (shape_Inner d top cs last) (conj D F)) as (L & G & Gl).
+      rewrite ins_Inner.
+      destruct (ins_cs m k last cs) as [[[[cs1 last1] f1] g1] p1] eqn:E.
+      destruct (ins_cs_shape d k last cs IHcs IHlast G Gl _ _ _ _ _ E) as (I1 & I2 & I3).
+      destruct g1.
+      + apply mk_inner_shape; [assumption | assumption | lia].
+      + cbn [shape_res]. apply shape_Inner. repeat split; try assumption; try apply I2; lia.
+  Qed.
+End Shape.
+
+Lemma depth_ok_height d t : depth_ok d t = true -> height t = d.
+Proof.
+  revert d. induction t as [ks | cs last IHcs IHlast] using tree_ind'; intros d D.
+  - cbn in *. apply Nat.eqb_eq in D. auto.
+  - destruct d as [| d]; [discriminate D |]. cbn [depth_ok] in D.
+    apply andb_true_iff in D. destruct D as [_ D]. cbn [height]. f_equal. apply IHlast, D.
+Qed.
+
+Lemma contains_fresh t k (f : bool) : ordered t = true ->
+  (f = true <-> ~ In k (elements t)) -> f = negb (contains t k).
+Proof.
+  intros O H. pose proof (ordered_find_iff t k O) as C.
+  destruct (contains t k); destruct f; cbn; try reflexivity.
+  - exfalso. apply (proj1 H eq_refl), C. reflexivity.
+  - assert (true = false) as X; [| discriminate X]. symmetry. apply H. intros Hin. apply C in Hin. discriminate.
+Qed.
+
+(** (e) the sequential model insert refines set insertion and keeps the validator's invariant *)
+Lemma insert_refines_sorted m t k : (3 <= m)%nat -> wf m t = true ->
+  wf m (fst (insert m t k)) = true /\
+  elements (fst (insert m t k)) = sinsert k (elements t) /\
+  snd (insert m t k) = negb (contains t k).
+Proof.
+  intros Hm W. pose proof (wf_ordered m t W) as O.
+  pose proof (ordered_elements_sorted t O) as Srt.
+  unfold wf in W. rewrite !andb_true_iff in W. destruct W as [[_ B] Fl].
+  destruct (split_point_facts m Hm) as (A1 & A2 & A3 & A4).
+  unfold insert. destruct (is_empty t) eqn:Em.
+  - destruct t as [[| ? ?] | ? ?]; try discriminate Em. cbn [fst snd elements sinsert].
+    repeat split. unfold wf, ordered, balanced, filled. cbn.
+    replace (Nat.leb m 0) with false by (symmetry; apply Nat.leb_gt; lia).
+    destruct m as [| m']; [lia | reflexivity].
+  - unfold filled in Fl. rewrite Em in Fl. cbn [orb] in Fl. unfold balanced in B.
+    pose proof (ins_shape m (min_keys m) A1 A2 A3 t (height t) 1%nat k B Fl) as Sh.
+    destruct (ins_spec m t k Srt) as [E1 E2].
+    destruct (ins m t k) as [t' f | l s r]; cbn [fst snd]; cbn [shape_res ins_elems ins_fresh] in *.
+    + destruct Sh as [D F]. repeat split.
+      * unfold wf. rewrite !andb_true_iff. repeat split.
+        -- apply sorted_elements_ordered. rewrite E1. apply sinsert_sorted, Srt.
+        -- unfold balanced. rewrite (depth_ok_height _ _ D). exact D.
+        -- unfold filled. rewrite F. apply orb_true_r.
+      * exact E1.
+      * apply contains_fresh; assumption.
+    + destruct Sh as [Gl Gr].
+      assert (E : elements (Inner [(l, s)] r) = elements l ++ s :: elements r).
+      { rewrite elements_Inner, elems_cs_cons. reflexivity. }
+      assert (DF : depth_ok (S (height t)) (Inner [(l, s)] r) = true /\ fill 1 (min_keys m) m (Inner [(l, s)] r) = true).
+      { apply shape_Inner. repeat split; try apply Gr; [cbn; lia | cbn; lia |].
+        constructor; [exact Gl | constructor]. }
+      destruct DF as [D F]. repeat split.
+      * unfold wf. rewrite !andb_true_iff. repeat split.
+        -- apply sorted_elements_ordered. rewrite E, E1. apply sinsert_sorted, Srt.
+        -- unfold balanced. rewrite (depth_ok_height _ _ D). exact D.
+        -- unfold filled. rewrite F. apply orb_true_r.
+      * rewrite E. exact E1.
+      * apply contains_fresh; assumption.
+Qed.
+
+Lemma insert_refines_set m t k : (3 <= m)%nat -> wf m t = true ->
+  let (t', fresh) := insert m t k in
+  wf m t' = true /\ (forall x, In x (elements t') <-> x = k \/ In x (elements t)) /\
+  fresh = negb (contains t k).
+Proof.
+  intros Hm W. destruct (insert_refines_sorted m t k Hm W) as (H1 & H2 & H3).
+  destruct (insert m t k) as [t' fresh]. cbn [fst snd] in *.
+  repeat split; try assumption; rewrite H2; apply sinsert_In.
+Qed.
+
+(** ** whole insertion histories *)
+Lemma memz_In k l : memz k l = true <-> In k l.
+Proof.
+  unfold memz. rewrite existsb_exists. split.
+  - intros [x [H1 H2]]. assert (k = x) by lia. subst. exact H1.
+  - intros H. exists k. split; [exact H | lia].
+Qed.
+
+Lemma memz_ext k l1 l2 : (forall x, In x l1 <-> In x l2) -> memz k l1 = memz k l2.
+Proof.
+  intros H. destruct (memz k l1) eqn:E1; destruct (memz k l2) eqn:E2; try reflexivity.
+  - apply memz_In, H, memz_In in E1. congruence.
+  - apply memz_In, H, memz_In in E2. congruence.
+Qed.
+
+Lemma fresh_flags_ext ks : forall s1 s2, (forall x, In x s1 <-> In x s2) -> fresh_flags s1 ks = fresh_flags s2 ks.
+Proof.
+  induction ks as [| k ks IH]; intros s1 s2 H; cbn; [reflexivity |].
+  rewrite (memz_ext k s1 s2 H). f_equal. apply IH. intros x. cbn. rewrite H. reflexivity.
+Qed.
+
+Lemma ordered_contains_memz t k : ordered t = true -> contains t k = memz k (elements t).
+Proof.
+  intros O. pose proof (ordered_find_iff t k O) as C. pose proof (memz_In k (elements t)) as M.
+  destruct (contains t k); destruct (memz k (elements t)); try reflexivity.
+  - symmetry. apply M, C. reflexivity.
+  - apply C, M. reflexivity.
+Qed.
+
+Lemma insert_all_spec m ks : (3 <= m)%nat -> forall t, wf m t = true ->
+  wf m (fst (insert_all m t ks)) = true /\
+  (forall x, In x (elements (fst (insert_all m t ks))) <-> In x ks \/ In x (elements t)) /\
+  snd (insert_all m t ks) = fresh_flags (elements t) ks.
+Proof.
+  intros Hm. induction ks as [| k ks IH]; intros t W.
+  - cbn. repeat split; [exact W | tauto | tauto].
+  - cbn [insert_all fresh_flags].
+    destruct (insert_refines_sorted m t k Hm W) as (W1 & E1 & F1).
+    destruct (insert m t k) as [t' f]. cbn [fst snd] in *.
+    destruct (IH t' W1) as (W2 & E2 & F2).
+    destruct (insert_all m t' ks) as [t'' fs]. cbn [fst snd] in *.
+    repeat split.
+    + exact W2.
+    + intros H. apply E2 in H. rewrite E1, sinsert_In in H. cbn [In].
+      destruct H as [H | [-> | H]]; auto.
+    + intros H. apply E2. rewrite E1, sinsert_In. cbn [In] in H.
+      destruct H as [[<- | H] | H]; auto.
+    + f_equal.
+      * rewrite F1. f_equal. apply ordered_contains_memz, (wf_ordered m), W.
+      * rewrite F2. apply fresh_flags_ext. intros x. rewrite E1, sinsert_In. cbn. intuition.
+Qed.
+
+(** every distinct key reports success exactly once (never, if it was in the set before) *)
+Lemma successes_seen x ks : forall seen, In x seen -> successes x ks (fresh_flags seen ks) = 0%nat.
+Proof.
+  unfold successes. induction ks as [| k ks IH]; intros seen H; cbn; [reflexivity |].
+  destruct (k =? x) eqn:E.
+  - assert (k = x) by lia. subst k. replace (memz x seen) with true by (symmetry; apply memz_In, H).
+    cbn. apply IH. left. reflexivity.
+  - cbn. apply IH. right. exact H.
+Qed.
+
+Lemma successes_once x ks : forall seen, ~ In x seen -> In x ks ->
+  successes x ks (fresh_flags seen ks) = 1%nat.
+Proof.
+  induction ks as [| k ks IH]; intros seen N H; [destruct H |].
+  unfold successes in *. cbn. destruct (k =? x) eqn:E.
+  - assert (k = x) by lia. subst k.
+    destruct (memz x seen) eqn:M; [apply memz_In in M; contradiction |].
+    cbn. f_equal. apply (successes_seen x ks (x :: seen)). left. reflexivity.
+  - cbn. apply IH.
+    + intros [-> | H1]; [lia | contradiction].
+    + destruct H as [-> | H]; [lia | exact H].
+Qed.
+
+Lemma insert_all_once m ks x : (3 <= m)%nat -> In x ks ->
+  successes x ks (snd (insert_all m (Leaf []) ks)) = 1%nat.
+Proof.
+  intros Hm H. destruct (insert_all_spec m ks Hm (Leaf []) eq_refl) as (_ & _ & F).
+  rewrite F. apply successes_once; [intros [] | exact H].
+Qed.
+
+(** * Operation hints: starting at a covering node gives the answer of a root descent *)
+Lemma subtree_elements h t : subtree h t -> exists pre post, elements t = pre ++ elements h ++ post.
+Proof.
+  induction 1 as [| cs last c s Hin Hsub IH | cs last Hsub IH].
+  - exists [], []. rewrite app_nil_r. reflexivity.
+  - destruct IH as (pre & post & E). apply in_split in Hin. destruct Hin as (l1 & l2 & ->).
+    rewrite elements_Inner, elems_cs_app, elems_cs_cons, E.
+    exists (flat_map (fun p : tree * Z => let (c, s) := p in elements c ++ [s]) l1 ++ pre),
+           (post ++ s :: elems_cs l2 last).
+    rewrite <- !app_assoc. reflexivity.
+  - destruct IH as (pre & post & E). rewrite elements_Inner. unfold elems_cs. rewrite E.
+    exists (flat_map (fun p : tree * Z => let (c, s) := p in elements c ++ [s]) cs ++ pre), post.
+    rewrite <- !app_assoc. reflexivity.
+Qed.
+
+Lemma node_keys_elements h x : In x (node_keys h) -> In x (elements h).
+Proof.
+  destruct h as [ks | cs last]; cbn [node_keys]; [auto |].
+  rewrite elements_Inner. induction cs as [| [c s] cs IH]; cbn [map]; [intros [] |].
+  rewrite elems_cs_cons. intros [<- | H]; apply in_or_app; right; [left; reflexivity | right; apply IH, H].
+Qed.
+
+Lemma last_cons (r : list Z) : forall a x, List.last (a :: r) x = List.last r a.
+Proof.
+  induction r as [| b r IH]; intros a x; [reflexivity |].
+  change (List.last (a :: b :: r) x) with (List.last (b :: r) x). rewrite !IH. reflexivity.
+Qed.
+
+Lemma last_In (r : list Z) : forall x, In (List.last r x) (x :: r).
+Proof.
+  induction r as [| a r IH]; intros x; [left; reflexivity |].
+  rewrite last_cons. right. apply IH.
+Qed.
+
+Lemma find_frame (f : Z -> bool) pre mid post :
+  (forall x, In x pre -> f x = false) ->
+  ((forall x, In x post -> f x = false) \/ (exists y, In y mid /\ f y = true)) ->
+  List.find f (pre ++ mid ++ post) = List.find f mid.
+Proof.
+  intros Hpre H. rewrite find_app, (find_all_false f pre Hpre), find_app.
+  destruct H as [Hpost | (y & Hy & Fy)].
+  - rewrite (find_all_false f post Hpost). destruct (List.find f mid); reflexivity.
+  - destruct (List.find f mid) eqn:E; [reflexivity |].
+    pose proof (find_none _ _ E y Hy). congruence.
+Qed.
+
+Section Hints.
+  Variables (t h : tree) (k : Z).
+  Hypothesis Hord : ordered t = true.
+  Hypothesis Hsub : subtree h t.
+
+  Lemma hint_frame :
+    exists pre post, elements t = pre ++ elements h ++ post /\
+      StronglySorted Z.lt (elements h) /\
+      (forall x y, In x pre -> In y (elements h) -> x < y) /\
+      (forall x y, In x (elements h) -> In y post -> x < y).
+  Proof.
+    destruct (subtree_elements h t Hsub) as (pre & post & E). exists pre, post.
+    pose proof (ordered_elements_sorted t Hord) as S. rewrite E in S.
+    apply sorted_app in S. destruct S as (S1 & S2 & C1).
+    apply sorted_app in S2. destruct S2 as (S2 & S3 & C2).
+    repeat split; try assumption.
+    intros x y Hx Hy. apply C1; [exact Hx | apply in_or_app; left; exact Hy].
+  Qed.
+
+  Lemma covers_keys x r : node_keys h = x :: r ->
+    In x (elements h) /\ In (List.last r x) (elements h).
+  Proof.
+    intros E. split; apply node_keys_elements; rewrite E; [left; reflexivity | apply last_In].
+  Qed.
+
+  Lemma hint_find : covers h k = true -> find h k = find t k.
+  Proof.
+    unfold covers. destruct (node_keys h) as [| x r] eqn:E; [discriminate |]. intros C.
+    destruct (covers_keys x r E) as [I1 I2].
+    destruct hint_frame as (pre & post & Et & Sh & C1 & C2).
+    rewrite (find_spec h k Sh), (find_spec t k (ordered_elements_sorted t Hord)), Et.
+    symmetry. apply find_frame.
+    - intros y Hy. specialize (C1 y x Hy I1). lia.
+    - left. intros y Hy. specialize (C2 _ y I2 Hy). lia.
+  Qed.
+
+  Lemma hint_lower_bound : covers h k = true -> lower_bound h k = lower_bound t k.
+  Proof.
+    unfold covers. destruct (node_keys h) as [| x r] eqn:E; [discriminate |]. intros C.
+    destruct (covers_keys x r E) as [I1 I2].
+    destruct hint_frame as (pre & post & Et & Sh & C1 & C2).
+    rewrite (ordered_lower_bound t k Hord), (ordered_lower_bound h k (sorted_elements_ordered h Sh)), Et.
+    symmetry. apply find_frame.
+    - intros y Hy. specialize (C1 y x Hy I1). lia.
+    - right. exists (List.last r x). split; [exact I2 | lia].
+  Qed.
+
+  Lemma hint_upper_bound : covers_upper h k = true -> upper_bound h k = upper_bound t k.
+  Proof.
+    unfold covers_upper. destruct (node_keys h) as [| x r] eqn:E; [discriminate |]. intros C.
+    destruct (covers_keys x r E) as [I1 I2].
+    destruct hint_frame as (pre & post & Et & Sh & C1 & C2).
+    rewrite (ordered_upper_bound t k Hord), (ordered_upper_bound h k (sorted_elements_ordered h Sh)), Et.
+    symmetry. apply find_frame.
+    - intros y Hy. specialize (C1 y x Hy I1). lia.
+    - right. exists (List.last r x). split; [exact I2 | lia].
+  Qed.
+End Hints.
+
+(** * Chunk partitioning (specification level)
+    [getChunks] returns iterator ranges; the harness renders every range as the list of keys it
+    iterates over. If these lists, in order, concatenate to the in-order list of a validated
+    tree, then they partition the set: every element is in some chunk, chunks contain only
+    elements, and no key occurs twice (neither inside one chunk nor in two chunks). *)
+Lemma chunks_partition m t (cks : list (list Z)) : wf m t = true -> concat cks = elements t ->
+  (forall x, In x (elements t) <-> exists c, In c cks /\ In x c) /\ NoDup (concat cks).
+Proof.
+  intros W E. split.
+  - intros x. rewrite <- E, in_concat. split; intros (c & H1 & H2); exists c; tauto.
+  - rewrite E. apply (wf_elements_NoDup m), W.
+Qed.
+
+(** * [wf] is at least as strong as the implementers' [node::check] *)
+Definition check_cs (mx : nat) (last : tree) :=
+  fix go (lo : option Z) (cs : list (tree * Z)) {struct cs} : bool :=
+    match cs with
+    | [] => check mx lo None last
+    | (c, s) :: cs' => check mx lo (Some s) c && go (Some s) cs'
+    end.
+Lemma check_Inner mx lo hi cs last :
+  check mx lo hi (Inner cs last) =
+  Nat.leb (length cs) mx && first_above lo (map snd cs) && last_below (map snd cs) hi
+  && asc None None (map snd cs) && check_cs mx last None cs.
+Proof. reflexivity. Qed.
+
+Lemma seps_in_elems cs last x : In x (map snd cs) -> In x (elems_cs cs last).
+Proof. intros H. apply (node_keys_elements (Inner cs last)), H. Qed.
+
+Lemma seps_sorted cs last : StronglySorted Z.lt (elems_cs cs last) -> StronglySorted Z.lt (map snd cs).
+Proof.
+  induction cs as [| [c s] cs IH]; intros S; [constructor |].
+  rewrite elems_cs_cons in S. destruct (sorted_mid _ _ _ S) as (_ & SB & _ & CB).
+  cbn [map snd]. apply sorted_cons. split; [apply IH, SB |].
+  intros y Hy. apply CB, seps_in_elems, Hy.
+Qed.
+
+Lemma first_last_bounded lo hi ks :
+  (forall x, In x ks -> bounded lo hi x) -> first_above lo ks = true /\ last_below ks hi = true.
+Proof.
+  intros H. destruct ks as [| x r]; [split; reflexivity |]. cbn [first_above last_below]. split.
+  - apply (H x). left. reflexivity.
+  - apply (H (List.last r x)), last_In.
+Qed.
+
+Lemma check_of_sorted mx t : forall lo hi top mn,
+  StronglySorted Z.lt (elements t) -> (forall x, In x (elements t) -> bounded lo hi x) ->
+  fill top mn mx t = true -> check mx lo hi t = true.
+Proof.
+  induction t as [ks | cs last IHcs IHlast] using tree_ind'; intros lo hi top mn S Bd F.
+  - cbn [check elements fill] in *. apply andb_true_iff in F. destruct F as [_ F].
+    destruct (first_last_bounded lo hi ks Bd) as [B1 B2]. rewrite F, B1, B2. cbn [andb].
+    apply asc_spec. split; [exact S | intros; split; reflexivity].
+  - rewrite check_Inner. rewrite elements_Inner in *. cbn [fill] in F.
+    rewrite !andb_true_iff, forallb_fst in F. destruct F as (((_ & F1) & F2) & F3).
+    assert (Bk : forall x, In x (map snd cs) -> bounded lo hi x) by (intros x Hx; apply Bd, seps_in_elems, Hx).
+    destruct (first_last_bounded lo hi _ Bk) as [B1 B2]. rewrite F1, B1, B2. cbn [andb].
+    apply andb_true_iff. split.
+    + apply asc_spec. split; [apply (seps_sorted cs last), S | intros; split; reflexivity].
+    + clear B1 B2 Bk F1.
+      assert (Ab : forall x, In x (elems_cs cs last) -> above None x = true) by reflexivity.
+      clear Bd. revert Ab. generalize (@None Z) as lo'.
+      induction cs as [| [c s] cs IH]; intros lo' Ab.
+      * cbn [check_cs]. apply (IHlast lo' None mn mn); [exact S | | exact F3].
+        intros x Hx. split; [apply Ab, Hx | reflexivity].
+      * inversion IHcs as [| ? ? Hc Hcs]; subst. cbn [fst] in Hc.
+        inversion F2 as [| ? ? Fc Fcs]; subst. cbn [fst] in Fc.
+        rewrite elems_cs_cons in *. destruct (sorted_mid _ _ _ S) as (SA & SB & CA & CB).
+        cbn [check_cs]. apply andb_true_iff. split.
+        -- apply (Hc lo' (Some s) mn mn); [exact SA | | exact Fc].
+           intros x Hx. split; [apply Ab, in_or_app; left; exact Hx | apply below_Some, CA, Hx].
+        -- apply (IH Hcs SB Fcs). intros x Hx. apply above_Some, CB, Hx.
+Qed.
+
+Lemma wf_implies_check m t : wf m t = true -> check m None None t = true.
+Proof.
+  intros W. pose proof (wf_elements_sorted m t W) as S.
+  unfold wf in W. rewrite !andb_true_iff in W. destruct W as [_ Fl]. unfold filled in Fl.
+  destruct (is_empty t) eqn:Em.
+  - destruct t as [[| ? ?] | ? ?]; try discriminate Em. reflexivity.
+  - cbn [orb] in Fl. apply (check_of_sorted m t None None 1%nat (min_keys m)); [exact S | | exact Fl].
+    intros; split; reflexivity.
+Qed.
+
+(** * Validated steps: what acceptance of two consecutive dumps implies
+    The harness compares the element list of every dump with a sorted-set model; these lemmas
+    say that a validated dump is determined, as far as every query is concerned, by its set. *)
+Lemma sorted_unique l1 : forall l2, StronglySorted Z.lt l1 -> StronglySorted Z.lt l2 ->
+  (forall x, In x l1 <-> In x l2) -> l1 = l2.
+Proof.
+  induction l1 as [| a l1 IH]; intros l2 S1 S2 H.
+  - destruct l2 as [| b l2]; [reflexivity |]. exfalso. apply (H b). left. reflexivity.
+  - destruct l2 as [| b l2]; [exfalso; apply (H a); left; reflexivity |].
+    apply sorted_cons in S1. destruct S1 as [S1 C1]. apply sorted_cons in S2. destruct S2 as [S2 C2].
+    assert (a = b).
+    { pose proof (proj1 (H a) (or_introl eq_refl)) as Ha. pose proof (proj2 (H b) (or_introl eq_refl)) as Hb.
+      destruct Ha as [Ha | Ha]; [auto |]. destruct Hb as [Hb | Hb]; [auto |].
+      specialize (C1 b Hb). specialize (C2 a Ha). lia. }
+    subst b. f_equal. apply IH; [exact S1 | exact S2 |]. intros x. split; intros Hx.
+    + pose proof (proj1 (H x) (or_intror Hx)) as [Hx' | Hx']; [specialize (C1 x Hx); lia | exact Hx'].
+    + pose proof (proj2 (H x) (or_intror Hx)) as [Hx' | Hx']; [specialize (C2 x Hx); lia | exact Hx'].
+Qed.
+
+Lemma bool_iff_eq (a b : bool) : (a = true <-> b = true) -> a = b.
+Proof. destruct a, b; intuition. Qed.
+
+Lemma sremove_In k l x : In x (sremove k l) <-> x <> k /\ In x l.
+Proof. unfold sremove. rewrite filter_In. split; intros [H1 H2]; split; auto; lia. Qed.
+
+Lemma sremove_sorted k l : StronglySorted Z.lt l -> StronglySorted Z.lt (sremove k l).
+Proof.
+  unfold sremove. induction l as [| a l IH]; intros S; [constructor |].
+  apply sorted_cons in S. destruct S as [S C]. cbn [filter].
+  destruct (negb (a =? k)); [| apply IH, S].
+  apply sorted_cons. split; [apply IH, S |]. intros y Hy. apply filter_In in Hy. apply C, Hy.
+Qed.
+
+Lemma validated_same_set m t t' : wf m t = true -> wf m t' = true ->
+  (forall x, In x (elements t') <-> In x (elements t)) ->
+  elements t' = elements t /\ size t' = size t /\
+  forall q, contains t' q = contains t q /\ lower_bound t' q = lower_bound t q /\
+            upper_bound t' q = upper_bound t q.
+Proof.
+  intros W W' H.
+  assert (E : elements t' = elements t)
+    by (apply sorted_unique; [apply (wf_elements_sorted m), W' | apply (wf_elements_sorted m), W | exact H]).
+  split; [exact E |]. split; [rewrite !size_elements, E; reflexivity |]. intros q.
+  rewrite !(ordered_contains_memz _ _ (wf_ordered m _ W)), !(ordered_contains_memz _ _ (wf_ordered m _ W')).
+  rewrite !(wf_lower_bound m _ _ W), !(wf_lower_bound m _ _ W'), !(wf_upper_bound m _ _ W), !(wf_upper_bound m _ _ W'), E.
+  repeat split.
+Qed.
+
+Lemma validated_insert_step m t t' k : wf m t = true -> wf m t' = true ->
+  (forall x, In x (elements t') <-> x = k \/ In x (elements t)) ->
+  elements t' = sinsert k (elements t) /\
+  (forall q, contains t' q = (q =? k) || contains t q) /\
+  size t' = (if contains t k then size t else S (size t)).
+Proof.
+  intros W W' H. pose proof (wf_elements_sorted m t W) as S.
+  assert (E : elements t' = sinsert k (elements t)).
+  { apply sorted_unique; [apply (wf_elements_sorted m), W' | apply sinsert_sorted, S |].
+    intros x. rewrite H, sinsert_In. reflexivity. }
+  split; [exact E |]. split.
+  - intros q. pose proof (wf_find_iff m t' q W') as C'. pose proof (wf_find_iff m t q W) as C.
+    rewrite H in C'. apply bool_iff_eq. rewrite orb_true_iff, Z.eqb_eq, C', C. reflexivity.
+  - rewrite !size_elements, E. pose proof (wf_find_iff m t k W) as C. clear E H.
+    induction (elements t) as [| a l IH].
+    + destruct (contains t k); [exfalso; apply C; reflexivity | reflexivity].
+    + apply sorted_cons in S. destruct S as [S1 C1]. cbn [sinsert].
+      destruct (k <? a) eqn:E1.
+      * destruct (contains t k); [| reflexivity].
+        exfalso. destruct (proj1 C eq_refl) as [-> | Hk]; [lia | specialize (C1 k Hk); lia].
+      * destruct (k =? a) eqn:E2.
+        -- destruct (contains t k); [reflexivity |].
+           assert (false = true) as X; [apply C; left; lia | discriminate].
+        -- cbn [length]. destruct (contains t k) eqn:Ck.
+           ++ f_equal. apply (IH S1). split; [intros _ | reflexivity].
+              destruct (proj1 C eq_refl) as [-> | Hk]; [lia | exact Hk].
+           ++ f_equal. apply (IH S1). split; [discriminate |].
+              intros Hk. apply C. right. exact Hk.
+Qed.
+
+Lemma validated_erase_step m t t' k : wf m t = true -> wf m t' = true ->
+  (forall x, In x (elements t') <-> x <> k /\ In x (elements t)) ->
+  elements t' = sremove k (elements t) /\
+  (forall q, contains t' q = negb (q =? k) && contains t q).
+Proof.
+  intros W W' H. pose proof (wf_elements_sorted m t W) as S.
+  assert (E : elements t' = sremove k (elements t)).
+  { apply sorted_unique; [apply (wf_elements_sorted m), W' | apply sremove_sorted, S |].
+    intros x. rewrite H, sremove_In. reflexivity. }
+  split; [exact E |].
+  intros q. pose proof (wf_find_iff m t' q W') as C'. pose proof (wf_find_iff m t q W) as C.
+  rewrite H in C'. apply bool_iff_eq. rewrite andb_true_iff, negb_true_iff, Z.eqb_neq, C', C. reflexivity.
+Qed.
+
+(** * Examples *)
+Definition ex_I1 : tree := Inner [(Leaf [1; 2], 3); (Leaf [4], 5)] (Leaf [6; 7; 8]).
+Definition ex_I2 : tree := Inner [(Leaf [10], 11)] (Leaf [12; 13]).
+Definition ex_I3 : tree := Inner [(Leaf [15], 16)] (Leaf [17; 18]).
+(** three levels, maxKeys = 3 (the harness' block size), dump
+    (I (I (L 1 2) 3 (L 4) 5 (L 6 7 8)) 9 (I (L 10) 11 (L 12 13)) 14 (I (L 15) 16 (L 17 18))) *)
+Definition ex_tree : tree := Inner [(ex_I1, 9); (ex_I2, 14)] ex_I3.
+
+Example ex_tree_wf : wf 3 ex_tree = true.
+Proof. vm_compute. reflexivity. Qed.
+Example ex_tree_height : height ex_tree = 2%nat.
+Proof. reflexivity. Qed.
+Example ex_tree_elements : elements ex_tree = [1; 2; 3; 4; 5; 6; 7; 8; 9; 10; 11; 12; 13; 14; 15; 16; 17; 18].
+Proof. vm_compute. reflexivity. Qed.
+Example ex_tree_queries :
+  (contains ex_tree 9, contains ex_tree 13, contains ex_tree 0, contains ex_tree 19,
+   lower_bound ex_tree 9, lower_bound ex_tree (-5), lower_bound ex_tree 19,
+   upper_bound ex_tree 8, upper_bound ex_tree 13, upper_bound ex_tree 18,
+   next_after ex_tree 8, next_after ex_tree 9, next_after ex_tree 18, size ex_tree, first ex_tree)
+  = (true, true, false, false, Some 9, Some 1, None, Some 9, Some 14, None,
+     Some 9, Some 10, None, 18%nat, Some 1).
+Proof. vm_compute. reflexivity. Qed.
+Example ex_tree_iterate : iterate ex_tree = elements ex_tree.
+Proof. vm_compute. reflexivity. Qed.
+
+(** rejected: the separator 8 is not strictly above the keys of the child on its left *)
+Example ex_bad_separator : wf 3 (Inner [(ex_I1, 8); (ex_I2, 14)] ex_I3) = false.
+Proof. vm_compute. reflexivity. Qed.
+(** rejected: separators of the root not ascending *)
+Example ex_bad_order : wf 3 (Inner [(ex_I2, 14); (ex_I1, 9)] ex_I3) = false.
+Proof. vm_compute. reflexivity. Qed.
+(** rejected: leaves at different depths / node too full / empty non-root node *)
+Example ex_bad_depth : wf 3 (Inner [(Leaf [1], 2)] ex_I2) = false.
+Proof. vm_compute. reflexivity. Qed.
+Example ex_bad_full : wf 3 (Inner [(Leaf [1; 2; 3; 4], 5)] (Leaf [6])) = false.
+Proof. vm_compute. reflexivity. Qed.
+Example ex_bad_empty_leaf : wf 3 (Inner [(Leaf [], 5)] (Leaf [6])) = false.
+Proof. vm_compute. reflexivity. Qed.
+Example ex_empty_wf : wf 3 (Leaf []) = true.
+Proof. reflexivity. Qed.
+
+(** [node::check] is strictly weaker than [wf]: it only compares the first/last key of a node
+    with the parent's separators, so it accepts this tree in which key 100 sits left of
+    separator 10, and in which [find] misses 100. *)
+Definition ex_deep : tree := Inner [(Inner [(Leaf [1], 2)] (Leaf [100]), 10)] (Inner [(Leaf [20], 30)] (Leaf [40])).
+Example ex_check_weaker :
+  check 3 None None ex_deep = true /\ wf 3 ex_deep = false /\
+  In 100 (elements ex_deep) /\ contains ex_deep 100 = false.
+Proof. vm_compute. intuition. Qed.
+
+(** the fill bound: maxKeys 3 -> split point 1, min 1; maxKeys 16 -> split point 12, min 3 *)
+Example ex_min_keys : (split_point 3, min_keys 3, split_point 4, min_keys 4, split_point 16, min_keys 16, split_point 28, min_keys 28)
+  = (1, 1, 2, 1, 12, 3, 21, 6)%nat.
+Proof. vm_compute. reflexivity. Qed.
+
+(** model insertion: ascending, descending and mixed histories with duplicates *)
+Example ex_insert_asc :
+  let (t, fs) := insert_all 3 (Leaf []) [1; 2; 3; 4; 5; 6; 7; 8; 9; 10; 11; 12] in
+  wf 3 t = true /\ height t = 2%nat /\ elements t = [1; 2; 3; 4; 5; 6; 7; 8; 9; 10; 11; 12] /\
+  fs = repeat true 12.
+Proof. vm_compute. intuition. Qed.
+Example ex_insert_mixed :
+  let (t, fs) := insert_all 3 (Leaf []) [50; -3; 50; 7; 7; 18446744073709551616; 0; -3; 9; 8; 6; 5] in
+  wf 3 t = true /\ elements t = [-3; 0; 5; 6; 7; 8; 9; 50; 18446744073709551616] /\
+  fs = [true; true; false; true; false; true; true; false; true; true; true; true].
+Proof. vm_compute. intuition. Qed.
+(** the split of a full leaf (maxKeys 4: split point 2) equals split()-then-insert of the C++:
+    left keeps keys[0..2) plus the new key when idx <= 2, keys[2] moves up *)
+Example ex_split_left : ins 4 (Leaf [10; 20; 30; 40]) 15 = Split (Leaf [10; 15; 20]) 30 (Leaf [40]).
+Proof. vm_compute. reflexivity. Qed.
+Example ex_split_right : ins 4 (Leaf [10; 20; 30; 40]) 35 = Split (Leaf [10; 20]) 30 (Leaf [35; 40]).
+Proof. vm_compute. reflexivity. Qed.
+Example ex_insert_instance : (3 <= 3)%nat /\ wf 3 ex_tree = true /\
+  elements (fst (insert 3 ex_tree 100)) = elements ex_tree ++ [100] /\ insert 3 ex_tree 9 = (ex_tree, false).
+Proof. vm_compute. intuition. Qed.
+
+(** hints: the node [ex_I2] covers 10..11 (its keys), a root descent gives the same answers *)
+Example ex_hint : subtree ex_I2 ex_tree /\ covers ex_I2 11 = true /\
+  find ex_I2 11 = find ex_tree 11 /\ lower_bound ex_I2 11 = lower_bound ex_tree 11.
+Proof.
+  split; [| vm_compute; intuition].
+  apply (sub_child _ _ _ ex_I2 14); [right; left; reflexivity | apply sub_here].
+Qed.
+
+(** chunks: three iterator ranges rendered as lists *)
+Example ex_chunks : concat [[1; 2; 3; 4; 5; 6; 7; 8]; [9; 10; 11; 12; 13]; [14; 15; 16; 17; 18]] = elements ex_tree.
+Proof. vm_compute. reflexivity. Qed.
+
+(* NOT PROVED:
+   - Linearizability of the real concurrent insert (optimistic locks, retries): outside this model.
+     Concurrent histories are covered only by the validator on the quiescent real tree (this file:
+     every accepted dump has the query/iteration properties) plus schedule exploration.
+   - Option A of rebalance_or_split (moving keys into the left sibling) is not mirrored by the
+     model [insert]; the model always splits. Real post-states are tied by [wf] + element-list
+     comparison, not by equality with the model tree.
+   - No model of BTreeDelete.h's erase (merge_or_rebalance); C26 rests on the validator theorems,
+     which do not depend on how a dumped tree was produced, plus the step lemmas
+     [validated_insert_step] / [validated_erase_step].
+   - collectChunks itself is not modelled (only the specification-level [chunks_partition]).
+   - Insertion hints (weak_covers on last_insert) are not modelled; find/lower_bound/upper_bound
+     hints are ([hint_find], [hint_lower_bound], [hint_upper_bound]).
+   - binary_search is not modelled separately; on strictly ascending keys it returns the
+     positions of linear_search, which the model uses.
+   - btree::load (bulk load) builds trees whose leaves need not be at one depth (buildSubTree
+     recurses on ranges of different length); such trees fail [balanced]. The query theorems only
+     need [ordered] (lemmas [ordered_...]), so they still apply to them. *)
